@@ -428,7 +428,8 @@ class LogFileDateSinceSeeker():
                 break
 
             current_offset = current_offset - len(chunk)
-            if (start_offset + current_offset) < 0:
+            if ((start_offset + current_offset) <=
+                    -LogFileDateSinceSeeker.SEEK_HORIZON):
                 return SearchState(status=FindTokenStatus.REACHED_EOF,
                                    offset=0)
 
